@@ -52,6 +52,12 @@ def compare_alias(ctx, case, cfg_a, cfg_b, label, counter, tr_b=None):
         nontriv = False
         if not same_points:
             ctx.count("different_choice_points_not_compared")
+        elif (not oa.ok and oracle.classify(cfg_a, *canon.plain(spec), oa.etype) in ("mixed-ballot-ranking-exhausted",)) or \
+                (not ob.ok and oracle.classify(cfg_b, *canon.plain(spec), ob.etype) in ("mixed-ballot-ranking-exhausted",)):
+            # C01's known finding (a ranked ballot that outlives its ranking through its scores makes the rule raise TypeError);
+            # whether it strikes depends on what the transfer rule does with the scores, so the two sides need not agree - the
+            # exception is judged once, under C01
+            ctx.count("c01_known_mechanism_not_compared")
         elif oa.ok != ob.ok or (not oa.ok and oa.etype != ob.etype):
             ctx.fail(f"{label}: one side raised, the other did not", c2, {"a": repr(oa)[:200], "b": repr(ob)[:200]})
         elif oa.ok:
